@@ -1,2 +1,18 @@
-(* C08 — SCTE-35 decoding reports exactly the encoded fields (statements added as they are proved). *)
-From Gots Require Import Base.Prelude Model.Scte Spec.Scte35Spec.
+(* C08 — SCTE-35 decoding reports exactly the encoded splice_info_section fields.
+   Statements only; proofs in Proofs/ScteDecode.v.  Vocabulary:
+   - Spec/Scte35Spec.v: logical `splice_info`, `ser_splice_info` (SCTE 35 section 9 syntax), `wf_splice_info` (field ranges);
+   - Proofs/ScteExpected.v: `supported` (wf, table_id 0xFC, clear, splice_null / time_signal with time /
+     splice_insert, pointer_field < 255) and `expected s`, the decoder's struct for s — every getter of the
+     Go API is a field (or a two-line function, ScteEnc.get_upid/get_mid) of that struct, see Exec/ScteExec.v view_scte;
+   - Model/Scte.v: `new_scte35`, the model of scte35.NewSCTE35 (repaired code for F8 and the two loops). *)
+From Gots Require Import Base.Prelude Model.Pts Model.Scte Spec.Scte35Spec Proofs.ScteExpected Proofs.ScteDecode.
+Import Scte Scte35Spec.
+Local Open Scope N_scope.
+
+(* decoding the serialisation of ANY supported section yields exactly its fields: all command kinds
+   (cancelled or not, program/component, immediate/timed, break_duration), all descriptor shapes
+   (cancelled, every flag, component lists with 33-bit offsets, 40-bit duration, single UPID, MID list,
+   sub-segment fields), foreign descriptors, stuffing, any pointer_field below 255 *)
+Theorem C08_decode_ser : forall s, supported s -> new_scte35 (ser_splice_info s) = Ok (expected s).
+Proof. exact decode_ser. Qed.
+Print Assumptions C08_decode_ser.
